@@ -113,35 +113,87 @@ Print Assumptions c18_swarm_success_has_marker.
 
 (* ---- LLM tool loop ----------------------------------------------------- *)
 
-(* at most max_iterations complete_with_tools rounds, at most one plain
-   completion, at most max_iterations + 1 provider calls in total, and a plain
-   completion is the last thing that happens (no tool runs after it) *)
+(* Environment: provider, plain completion and tools are state machines over an
+   ARBITRARY state type (they may remember the whole history); a tool may use
+   the very Nucleus that is executing it: nested transcribe_with_tools with its
+   own limit, transcribe, clear_log.  s, log: ANY environment state and ANY
+   transcription log at entry (hence any earlier use of the same objects);
+   d: nesting fuel of the model.
+
+   Every activation -- the outermost call and every call nested in it at any
+   depth -- makes at most ITS OWN max_iterations complete_with_tools rounds, at
+   most one plain completion, at most max_iterations + 1 provider calls in
+   total, and its plain completion is the last thing it does. *)
 Theorem c18_tool_rounds_le :
-  forall (with_tools : nat -> list Z -> presp) (complete : bool -> list Z -> option Z)
-         (exec : Z -> Z) (auto has_tools has_method : bool) (max_iterations : Z),
-    let evs := fst (transcribe_with_tools with_tools complete exec auto has_tools has_method
-                      max_iterations) in
-    count is_tools_ev evs <= Z.to_nat max_iterations /\
-    count is_complete_ev evs <= 1 /\
-    count is_tools_ev evs + count is_complete_ev evs <= Z.to_nat max_iterations + 1 /\
-    ((0 <= max_iterations)%Z ->
-       (Z.of_nat (count is_tools_ev evs) <= max_iterations)%Z /\
-       (Z.of_nat (count is_tools_ev evs + count is_complete_ev evs) <= max_iterations + 1)%Z) /\
-    (exists pre e, evs = pre ++ [e] /\ Forall (fun x => is_complete_ev x = false) pre).
+  forall (St : Type)
+         (with_tools : St -> Z -> list Z -> St * presp)
+         (complete : St -> Z -> bool -> list Z -> St * option Z)
+         (tool_pre : St -> Z -> St * taction)
+         (tool_post : St -> Z -> option Z -> St * Z)
+         (has_tools has_method : bool)
+         (d : nat) (s : St) (log : list Z) (q max_iterations : Z) (auto : bool)
+         (s' : St) (log' : list Z) (t : trace) (f : tfinal),
+    transcribe_with_tools with_tools complete tool_pre tool_post has_tools has_method
+      d s log q max_iterations auto = (s', log', t, f) ->
+    local_ok max_iterations t /\
+    nested_all (fun limit _ t' => local_ok limit t') t.
 Proof. exact tool_rounds_le_proof. Qed.
 Print Assumptions c18_tool_rounds_le.
 
-(* "even if the provider requests tools forever": then exactly max_iterations
-   rounds run (each executing at least one tool) followed by exactly one plain
-   completion *)
+(* the same for every call of any sequence of calls made on one nucleus with
+   one provider and one mitochondria (state carried from call to call) *)
+Theorem c18_tool_history_within_budget :
+  forall (St : Type)
+         (with_tools : St -> Z -> list Z -> St * presp)
+         (complete : St -> Z -> bool -> list Z -> St * option Z)
+         (tool_pre : St -> Z -> St * taction)
+         (tool_post : St -> Z -> option Z -> St * Z)
+         (has_tools has_method : bool)
+         (calls : list (Z * bool)) (d : nat) (s : St) (log : list Z) (q : Z)
+         (rs : list tcall) (logf : list Z),
+    run_calls with_tools complete tool_pre tool_post has_tools has_method d s log q calls = (rs, logf) ->
+    Forall (fun c => local_ok (c_limit c) (c_trace c) /\
+                     nested_all (fun limit _ t' => local_ok limit t') (c_trace c)) rs.
+Proof. exact tool_history_proof. Qed.
+Print Assumptions c18_tool_history_within_budget.
+
+(* "even if the provider requests tools forever": then every auto-executing
+   activation, outermost or nested, runs exactly its max_iterations rounds (each
+   executing at least one tool) followed by exactly one plain completion *)
 Theorem c18_tool_rounds_forever_exact :
-  forall (with_tools : nat -> list Z -> presp) (complete : bool -> list Z -> option Z)
-         (exec : Z -> Z) (auto has_tools has_method : bool) (max_iterations : Z),
-    (forall k p, exists c c0 calls, with_tools k p = PResp c (c0 :: calls)) ->
-    auto = true -> has_tools = true -> has_method = true ->
-    let evs := fst (transcribe_with_tools with_tools complete exec auto has_tools has_method
-                      max_iterations) in
-    count is_tools_ev evs = Z.to_nat max_iterations /\ count is_complete_ev evs = 1 /\
-    Z.to_nat max_iterations <= count is_exec_ev evs.
+  forall (St : Type)
+         (with_tools : St -> Z -> list Z -> St * presp)
+         (complete : St -> Z -> bool -> list Z -> St * option Z)
+         (tool_pre : St -> Z -> St * taction)
+         (tool_post : St -> Z -> option Z -> St * Z)
+         (has_tools has_method : bool),
+    (forall s q p, exists s' c c0 calls, with_tools s q p = (s', PResp c (c0 :: calls))) ->
+    has_tools = true -> has_method = true ->
+    forall (d : nat) (s : St) (log : list Z) (q max_iterations : Z) (auto : bool)
+           (s' : St) (log' : list Z) (t : trace) (f : tfinal),
+    transcribe_with_tools with_tools complete tool_pre tool_post has_tools has_method
+      d s log q max_iterations auto = (s', log', t, f) ->
+    exact_when_auto max_iterations auto t /\ nested_all exact_when_auto t.
 Proof. exact tool_forever_exact_proof. Qed.
 Print Assumptions c18_tool_rounds_forever_exact.
+
+(* the model's nesting fuel excluded: a run in which it was never exhausted
+   (fuel_ok) is the same for every larger fuel, so the theorems above speak
+   about the real, fuel-free behaviour whenever fuel_ok holds (the
+   correspondence cases observe an exhausted fuel as the line [-996]) *)
+Theorem c18_tool_fuel_irrelevant :
+  forall (St : Type)
+         (with_tools : St -> Z -> list Z -> St * presp)
+         (complete : St -> Z -> bool -> list Z -> St * option Z)
+         (tool_pre : St -> Z -> St * taction)
+         (tool_post : St -> Z -> option Z -> St * Z)
+         (has_tools has_method : bool)
+         (d d' : nat) (s : St) (log : list Z) (q max_iterations : Z) (auto : bool)
+         (s' : St) (log' : list Z) (t : trace) (f : tfinal),
+    transcribe_with_tools with_tools complete tool_pre tool_post has_tools has_method
+      d s log q max_iterations auto = (s', log', t, f) ->
+    fuel_ok t -> d <= d' ->
+    transcribe_with_tools with_tools complete tool_pre tool_post has_tools has_method
+      d' s log q max_iterations auto = (s', log', t, f).
+Proof. exact tool_fuel_irrelevant_proof. Qed.
+Print Assumptions c18_tool_fuel_irrelevant.
